@@ -73,9 +73,15 @@ ORIG_HOME = os.environ.get("HOME")
 class ImplSession:
     """one Interpreter with string stdin/stdout, a private $HOME holding user modules, a scratch cwd"""
 
-    def __init__(self, mods=None, secure=True, legacy=False, share_with=None):
+    def __init__(self, mods=None, secure=True, legacy=False, share_with=None, explicit_env=False):
+        """explicit_env: every call goes through `interpret(src, name, environment)` with ONE caller-owned environment (the way the
+        project's own tests and embedding code call the interpreter) instead of the interpreter's own session frame"""
         from ckl.interpreter import Interpreter
         from ckl.values import StringInput, StringOutput
+        self.env = None
+        if explicit_env:
+            from ckl.functions import get_none_environment
+            self.env = get_none_environment()
         self.shared = share_with is not None
         if self.shared:
             self.home = share_with.home
@@ -93,12 +99,16 @@ class ImplSession:
         self.it.setStandardOutput(self.out)
         self.it.setStandardInput(StringInput(""))
 
+    def frame(self):
+        """the environment in which the session's top-level definitions land"""
+        return self.it.environment if self.env is None else self.env
+
     def run(self, src, name="f", limit=5):
         from ckl.errors import CklRuntimeError, CklSyntaxError
         self.out.output = ""
         try:
             with core.time_limit(limit):
-                v = self.it.interpret(src, name)
+                v = self.it.interpret(src, name) if self.env is None else self.it.interpret(src, name, self.env)
                 outcome = ('val', dump_rval(v))
         except core.Timeout:
             outcome = ('timeout',)
@@ -110,7 +120,7 @@ class ImplSession:
             outcome = ('host', 'RecursionError')
         except Exception as e:  # noqa
             outcome = ('host', type(e).__name__ + ": " + str(e)[:120])
-        syms = tuple(self.it.environment.map.keys())
+        syms = tuple((self.it.environment if self.env is None else self.env).map.keys())
         return outcome, self.out.output, syms
 
     def close(self):
